@@ -129,17 +129,29 @@ Lemma token_hyp_sound rate burst t0 : token_hyp rate burst t0 = true ->
 Proof. unfold token_hyp. lia. Qed.
 
 (* Exec.sallow in Redis mode with a live context and Redis answering is one step of the Spec bucket *)
-Lemma sallow_redis rate burst s n : ss_mode s = FRedis -> ss_eup s = true ->
-  snd (sallow rate burst s n false) = snd (btake rate burst 1 (ss_rb s) (ss_t s / 1000) n).
+Lemma sallow_redis rate burst s inst n : ss_mode s inst = FRedis -> ss_eup s = true ->
+  snd (fst (sallow rate burst s inst n false)) = snd (btake rate burst 1 (ss_rb s) (ss_t s / 1000) n).
 Proof.
   intros M U. unfold sallow, fdecide. rewrite M, U.
   destruct (btake rate burst 1 (ss_rb s) (ss_t s / 1000) n). reflexivity.
 Qed.
 
-(* ... and in rescue mode one step of the in-process bucket, whatever the context *)
-Lemma sallow_rescue rate burst s n cd : ss_mode s = FRescue ->
-  snd (sallow rate burst s n cd) = snd (btake rate burst 1000 (ss_ib s) (ss_t s) n).
+(* ... and in rescue mode one step of that instance's in-process bucket, whatever the context *)
+Lemma sallow_rescue rate burst s inst n cd : ss_mode s inst = FRescue ->
+  snd (fst (sallow rate burst s inst n cd)) = snd (btake rate burst 1000 (ss_ib s inst) (ss_t s) n).
 Proof.
   intros M. unfold sallow, fdecide. rewrite M.
-  destruct (btake rate burst 1000 (ss_ib s) (ss_t s) n). reflexivity.
+  destruct (btake rate burst 1000 (ss_ib s inst) (ss_t s) n). reflexivity.
 Qed.
+
+(* Exec.settle is the pair of monitor events TPing; TExit of Model.trun, for each limiter instance *)
+Lemma settle_is_ping_exit c w l0 l1 : ping_up w = true ->
+  settle (w, l0, l1) = (w, snd (fst (trun c (w, l0) [TPing; TExit])), snd (fst (trun c (w, l1) [TPing; TExit]))).
+Proof. intro P. unfold settle. rewrite P. reflexivity. Qed.
+
+(* Exec.xreserve on instance 0 is the TAllow step of Model.tstep *)
+Lemma xreserve_is_tstep c w l0 l1 now n cx :
+  xreserve c (w, l0, l1) 0 now n cx =
+    (let '(st', out) := tstep c (w, l0) (TAllow now n cx) in
+     ((fst st', snd st', l1), match out with Some b => b | None => false end)).
+Proof. unfold xreserve, tstep. destruct (reserve c w l0 now n cx) as [[w' l'] ok]. reflexivity. Qed.
